@@ -198,4 +198,9 @@ def filter_idempotent(t):
             inner = strip(y[2])
             if head(inner) == "cmp" and inner[1] == c[1] and strip(inner[2]) == strip(y[1]) and inner[3] == c[3]:
                 return y
+        # the same with the masked array on the right of the comparison (m <= X)
+        if head(y) == "sub" and head(c) == "cmp" and strip(c[3]) == y:
+            inner = strip(y[2])
+            if head(inner) == "cmp" and inner[1] == c[1] and strip(inner[3]) == strip(y[1]) and inner[2] == c[2]:
+                return y
     return t
